@@ -128,6 +128,12 @@ TConflict ==
   /\ Conflict(st[Ev.obj], Ev.res)
   /\ UNCHANGED <<st, hl, memo>>
 
+TExtendHull ==
+  /\ IsEvent("ExtendHull")
+  /\ st[Ev.obj].live
+  /\ ExtendHull(st[Ev.obj], Ev.res)
+  /\ UNCHANGED <<st, hl, memo>>
+
 THullCreate ==
   /\ IsEvent("HullCreate")
   /\ st[Ev.obj].live
@@ -204,7 +210,7 @@ TraceNext ==
   \/ TFaulted \/ TMaint
   \/ TReset \/ TConstruct \/ TInsert \/ TRemove \/ TFlip \/ TRepair \/ TVerdicts
   \/ TEmpty \/ TSetPolicy \/ TLocate \/ THullCreate \/ THullQuery \/ TQueries
-  \/ TClone \/ TSerDe \/ TCompare \/ TCanon \/ TConflict
+  \/ TClone \/ TSerDe \/ TCompare \/ TCanon \/ TConflict \/ TExtendHull
 
 TraceSpec == TraceInit /\ [][TraceNext]_vars
 
